@@ -37,6 +37,23 @@ func TestVerif_C32(t *testing.T) {
 	run.Cases("map", n, func(i int, rng *verifkit.Rand) { c32map(run, rng, i < 2) })
 }
 
+// c32HookClock lets the driver interleave another client's operation at the
+// instant the code under test reads the clock (an injected dependency): the
+// one-shot hook runs inside Now(). It stands for a concurrent goroutine whose
+// operation is linearised at that point.
+type c32HookClock struct {
+	clockwork.Clock
+	hook func()
+}
+
+func (c *c32HookClock) Now() time.Time {
+	if h := c.hook; h != nil {
+		c.hook = nil
+		h()
+	}
+	return c.Clock.Now()
+}
+
 func c32advance(rng *verifkit.Rand, now time.Time, exp map[string]time.Time, ttl time.Duration) time.Duration {
 	// candidate instants: each live expiry, +-1ns
 	var future []time.Time
@@ -68,7 +85,8 @@ func c32set(run *verifkit.Run, rng *verifkit.Rand, sample bool) {
 	clock := clockwork.NewFakeClock()
 	ttl := time.Duration(rng.Range(1, 50)) * time.Duration(verifkit.Pick(rng, 1, 7, 1000, 1000000))
 	s := NewSetWithTTL[string](ttl)
-	s.Clock = clock
+	hc := &c32HookClock{Clock: clock}
+	s.Clock = hc
 	exp := map[string]time.Time{}
 	items := []string{"a", "b", "c", "d", "e"}[:rng.Range(1, 5)]
 	steps := rng.Range(5, 40)
@@ -108,11 +126,31 @@ func c32set(run *verifkit.Run, rng *verifkit.Rand, sample bool) {
 		}
 		lengthSeen := -1
 		membersLen := -1
+		interleaved := map[string]bool{}
 		for _, q := range order {
 			switch q {
 			case 0:
 				for _, it := range items {
-					note("Contains", it, s.Contains(it))
+					it := it
+					if rng.Chance(0.2) {
+						// another client re-adds this very item while Contains is reading the clock
+						hc.hook = func() {
+							if !s.mut.TryLock() {
+								return // the code under test holds its lock: no other client could get in here
+							}
+							s.mut.Unlock()
+							s.Add(it)
+							exp[it] = clock.Now().Add(ttl)
+							interleaved[it] = true
+							hist = append(hist, c32step{Op: "add-interleaved-in-Contains", Item: it})
+							run.Count("set_adds_interleaved_inside_a_query", 1)
+						}
+					}
+					present := s.Contains(it)
+					hc.hook = nil
+					if !interleaved[it] {
+						note("Contains", it, present)
+					}
 				}
 			case 1:
 				ms := s.Members()
@@ -133,6 +171,10 @@ func c32set(run *verifkit.Run, rng *verifkit.Rand, sample bool) {
 		}
 		run.Count("set_queries", 3)
 		qorder := fmt.Sprint(order)
+		if len(interleaved) > 0 {
+			// queries of this step straddle the interleaved add: the next step judges its effect
+			continue
+		}
 		for _, it := range items {
 			e, live := exp[it]
 			a := ans[it]
